@@ -160,6 +160,21 @@ func verifC05Attach(x *verifKVMachine, st *verifC05State) {
 			}
 			return true
 		}
+		// an operation that can never succeed (unknown node / session / entity, whatever ran before it) must abort the txn
+		gotFailed := map[int]bool{}
+		for _, e := range res.Errors {
+			gotFailed[e.OpIndex] = true
+		}
+		for i, t := range op.P.Txn {
+			if why := verifC05MustFail(t); why != "" {
+				c.Label("has-must-fail-op")
+				if len(res.Errors) == 0 {
+					c.Violation(f, "C05/impossible-op-accepted/"+verifC05VerbName(t), "txn %s committed although op #%d (%s) can never succeed: %s", op.Desc, i, vs.DescribeTxnOp(t), why)
+				} else if !gotFailed[i] {
+					c.Violation(f, "C05/failing-op-not-reported/"+verifC05VerbName(t), "txn %s aborted (%s) but op #%d (%s), which can never succeed (%s), is not among the reported errors", op.Desc, res, i, vs.DescribeTxnOp(t), why)
+				}
+			}
+		}
 		if len(res.Errors) > 0 {
 			// ---- (a) abort => nothing observable changed
 			c.Labelf("abort-first-failing-pos=%d", min(firstFail, 4))
@@ -191,6 +206,7 @@ func verifC05Attach(x *verifKVMachine, st *verifC05State) {
 		// ---- (b) commit
 		c.Label("commit")
 		verifC05CheckStamps(x, op, st.dumpA, after)
+		verifC05CheckEffects(x, op)
 		// sequential composition on the twin
 		allOK := true
 		for i, t := range op.P.Txn {
@@ -335,10 +351,32 @@ func verifC05Run(f verifkit.F, c *verifkit.Case, next func(x *verifKVMachine, i 
 	}
 }
 
+// verifC05Witnesses: fixed minimal histories of recorded findings (regression cases once fixed).
+func verifC05Witnesses() map[string][]*vs.Op {
+	sess := vs.SessionPool(1)[0]
+	chk := &structs.HealthCheck{Node: "n1", CheckID: "c1", Name: "c1", Status: api.HealthCritical, Type: "session"}
+	chk.Definition.SessionName = "sb"
+	reg := &structs.RegisterRequest{Datacenter: "dc1", Node: "n1", ID: vs.NodeIDs["n1"], Address: "10.0.0.1", Checks: structs.HealthChecks{chk}}
+	return map[string][]*vs.Op{
+		"witness-session-check-flip-keeps-old-modify-index": {
+			vs.NewRegister(11, reg),
+			vs.NewSessCreate(13, &structs.Session{ID: sess, Name: "sb", Node: "n1", Behavior: structs.SessionKeysRelease}),
+			vs.NewTxn(17, structs.TxnOps{&structs.TxnOp{Session: &structs.TxnSessionOp{Verb: api.SessionDelete, Session: structs.Session{ID: sess}}}}),
+		},
+	}
+}
+
 func TestVerifC05Replay(t *testing.T) {
 	rec := verifkit.For("C05")
 	defer rec.Flush()
-	_ = os.Getenv
+	if os.Getenv("VERIF_REPLAY") == "" {
+		for name, ops := range verifC05Witnesses() {
+			c := rec.NewCase()
+			c.Label("witness:" + name)
+			verifC05Run(t, c, verifOpsFeeder(ops))
+			c.Done()
+		}
+	}
 	for _, path := range verifkit.ReplayFiles("C05") {
 		c := rec.NewCase()
 		c.Label("replay")
@@ -368,4 +406,149 @@ func verifDropZeroUsage(d vs.Dump) vs.Dump {
 		}
 	}
 	return out
+}
+
+
+const verifNeverSession = "5e55ffff-ffff-4fff-8fff-ffffffffffff" // never created by any generator
+
+// verifC05MustFail: operations whose failure does not depend on the state (names no generator ever creates).
+func verifC05MustFail(t *structs.TxnOp) string {
+	switch {
+	case t.Service != nil && t.Service.Node == "n-missing" && (t.Service.Verb == api.ServiceSet || t.Service.Verb == api.ServiceCAS || t.Service.Verb == api.ServiceGet):
+		return "node n-missing never exists"
+	case t.Service != nil && t.Service.Verb == api.ServiceGet && t.Service.Service.ID == "nope-1":
+		return "service nope-1 never exists"
+	case t.Check != nil && t.Check.Check.Node == "n-missing" && (t.Check.Verb == api.CheckSet || t.Check.Verb == api.CheckCAS || t.Check.Verb == api.CheckGet):
+		return "node n-missing never exists"
+	case t.Session != nil && t.Session.Session.ID == verifNeverSession:
+		return "session was never created"
+	case t.KV != nil && t.KV.DirEnt.Session == verifNeverSession:
+		switch t.KV.Verb {
+		case api.KVLock:
+			return "lock by a session that was never created"
+		case api.KVCheckSession, api.KVUnlock:
+			return "no key can be held by a session that was never created"
+		}
+	}
+	return ""
+}
+
+// verifC05CheckEffects: after a COMMITTED transaction every catalog/session write verb that is the last writer of
+// its entity must be visible ("applies all of its operations").
+func verifC05CheckEffects(x *verifKVMachine, op *vs.Op) {
+	f, c := x.f, x.c
+	s := x.w.Store
+	ops := op.P.Txn
+	nodeWriteAfter := func(i int) bool {
+		for j := i + 1; j < len(ops); j++ {
+			if ops[j].Node != nil && ops[j].Node.Verb != api.NodeGet {
+				return true
+			}
+		}
+		return false
+	}
+	sessionVerbAfter := func(i int) bool {
+		for j := i + 1; j < len(ops); j++ {
+			if ops[j].Session != nil {
+				return true
+			}
+		}
+		return false
+	}
+	entity := func(t *structs.TxnOp) string {
+		switch {
+		case t.Node != nil:
+			return "node:" + t.Node.Node.Node
+		case t.Service != nil:
+			return "service:" + t.Service.Node + "/" + t.Service.Service.ID
+		case t.Check != nil:
+			return "check:" + t.Check.Check.Node + "/" + string(t.Check.Check.CheckID)
+		case t.Session != nil:
+			return "session:" + t.Session.Session.ID
+		}
+		return ""
+	}
+	for i, t := range ops {
+		e := entity(t)
+		if e == "" {
+			continue
+		}
+		last := true
+		for j := i + 1; j < len(ops); j++ {
+			if entity(ops[j]) == e {
+				last = false
+			}
+			// deleting a service removes its checks; a check of a service is touched by writes to that service
+			if t.Check != nil && ops[j].Service != nil && ops[j].Service.Node == t.Check.Check.Node {
+				last = false
+			}
+		}
+		if !last || (t.Node == nil && nodeWriteAfter(i)) {
+			continue
+		}
+		bad := func(what string) {
+			c.Violation(f, "C05/committed-op-has-no-effect/"+verifC05VerbName(t), "txn %s committed but op #%d (%s): %s", op.Desc, i, vs.DescribeTxnOp(t), what)
+		}
+		switch {
+		case t.Node != nil && nodeWriteAfter(i):
+		case t.Node != nil:
+			_, n, _ := s.GetNode(t.Node.Node.Node, nil, "")
+			switch t.Node.Verb {
+			case api.NodeSet, api.NodeCAS:
+				if n == nil {
+					bad("node does not exist afterwards")
+				}
+			case api.NodeDelete, api.NodeDeleteCAS:
+				if n != nil {
+					bad("node still exists afterwards")
+				}
+			}
+		case t.Service != nil:
+			var found *structs.NodeService
+			for _, sv := range x.w.NodeServices(t.Service.Node, "") {
+				if sv.ID == t.Service.Service.ID {
+					found = sv
+				}
+			}
+			switch t.Service.Verb {
+			case api.ServiceSet, api.ServiceCAS:
+				if found == nil {
+					bad("service instance does not exist afterwards")
+				} else if found.Service != t.Service.Service.Service || found.Port != t.Service.Service.Port {
+					bad(fmt.Sprintf("service instance afterwards is %s:%d", found.Service, found.Port))
+				}
+			case api.ServiceDelete, api.ServiceDeleteCAS:
+				if found != nil {
+					bad("service instance still exists afterwards")
+				}
+			}
+		case t.Check != nil:
+			var found *structs.HealthCheck
+			for _, ck := range x.w.NodeChecks(t.Check.Check.Node, "") {
+				if ck.CheckID == t.Check.Check.CheckID {
+					found = ck
+				}
+			}
+			switch t.Check.Verb {
+			case api.CheckSet, api.CheckCAS:
+				want := t.Check.Check.Status
+				if want == "" {
+					want = api.HealthCritical
+				}
+				if found == nil {
+					bad("check does not exist afterwards")
+				} else if found.Status != want && !(t.Check.Check.Type == "session" && sessionVerbAfter(i)) {
+					bad(fmt.Sprintf("check status afterwards is %q, written %q", found.Status, want))
+				}
+			case api.CheckDelete, api.CheckDeleteCAS:
+				if found != nil {
+					bad("check still exists afterwards")
+				}
+			}
+		case t.Session != nil:
+			if _, sess, _ := s.SessionGet(nil, t.Session.Session.ID, nil); sess != nil {
+				bad("session still exists afterwards")
+			}
+		}
+	}
 }
